@@ -162,6 +162,9 @@ type MeltQuote struct {
 	CreatedAt      int64
 	SettledAt      int64
 	QuoteExpiry    uint64
+	// id of the keyset the blank outputs (NUT-08 change) of a melt that went
+	// pending were derived from
+	ChangeKeysetId string
 }
 
 type Invoice struct {
